@@ -38,6 +38,7 @@ CaseOK(c) ==
     [] c.kind = "limit" -> LimitOK(c)
     [] c.kind = "recovered" -> RecoveredOK(c)
     [] c.kind = "timeout" -> TimeoutOK(c)
+    [] c.kind = "stacksweep" -> StackSweepOK(c)
     [] c.kind = "modscan" -> ModScanOK(c)
     [] c.kind = "hook" -> SH!HookTraceOK(c)
     [] c.kind = "queue" -> CQ!QueueTraceOK(c)
